@@ -167,6 +167,17 @@ ShadowTrap(prog, fin) ==
                          /\ LET x == prog[fin.ev[k].i + 1 + d] IN
                             x.op \in {"div", "rem"} \/ (x.op \in CondOps \cup {"j", "jal"} /\ x.tgt = -1)
 
+(* F04c (MVP-6.3 with >= 3 units): a memory instruction that waits behind another memory instruction reads its *)
+(* base register late; a younger instruction that writes that register (renamed, so not held back) completes  *)
+(* first and the access uses the new base.  Masks: a load/store i directly preceded (within 2) by another      *)
+(* memory instruction, whose base register is written by an instruction at most 3 positions after i.           *)
+WarBaseAfterMem(prog, fin) ==
+  \E i \in 2 .. N(fin), j \in 1 .. N(fin) :
+    /\ i < j /\ j - i <= 3
+    /\ InsAt(prog, fin, i).op \in LoadOps \cup StoreOps
+    /\ InsAt(prog, fin, i).rs1 \in Writes(prog, fin, j)
+    /\ \E h \in 1 .. (i - 1) : i - h <= 2 /\ InsAt(prog, fin, h).op \in LoadOps \cup StoreOps
+
 Tags(prog, fin) ==
   (IF RetAfterStoreMiss(prog, fin) THEN {"ret_after_store_miss"} ELSE {})
   \cup (IF RetDropsInflight(prog, fin) THEN {"ret_drops_inflight"} ELSE {})
@@ -181,5 +192,6 @@ Tags(prog, fin) ==
   \cup (IF LaterFlushAfterStoreMiss(prog, fin) THEN {"later_flush_after_store_miss"} ELSE {})
   \cup (IF ShadowStoreHit(prog, fin) THEN {"shadow_store_hit"} ELSE {})
   \cup (IF ShadowTrap(prog, fin) THEN {"shadow_trap"} ELSE {})
+  \cup (IF WarBaseAfterMem(prog, fin) THEN {"war_base_after_mem"} ELSE {})
   \cup (IF N(fin) > 150 /\ L3Overflow(prog, fin) THEN {"l3_overflow_with_stores"} ELSE {})
 =======================================================================
